@@ -362,9 +362,14 @@ def classify(case):
 
 
 @st.composite
-def burst_msg(draw):
-    m = draw(c12.message(types=(1, 1, 2, 3, 4, 4)))
-    if draw(st.integers(0, 2)) == 0:
+def burst_msg(draw, rules=None):
+    near = bool(rules) and draw(st.integers(0, 2)) == 0
+    if near:
+        # built to satisfy one of the history's match rules except (usually) in one constrained place
+        m = draw(c12.message_near(rules[draw(st.integers(0, len(rules) - 1))], (1, 1, 2, 3, 4, 4)))
+    else:
+        m = draw(c12.message(types=(1, 1, 2, 3, 4, 4)))
+    if not near and draw(st.integers(0, 2)) == 0:
         # a body from the full value space (variants, 64-bit integers, empty containers, byte arrays ...)
         m['sig'], m['trees'] = draw(S.typed_values(max_types=3, depth=2))
     return {'from': draw(st.integers(0, 3)), 'to': draw(st.integers(0, 5)),
@@ -383,7 +388,7 @@ def random_history(draw, tier):
         k = draw(st.sampled_from(['burst'] * 5 + ['own', 'own', 'wait', 'disown', 'addmatch', 'addmatch', 'removematch',
                                                   'connect', 'disconnect']))
         if k == 'burst':
-            msgs = [draw(burst_msg()) for _ in range(draw(st.integers(1, 4)))]
+            msgs = [draw(burst_msg(rules)) for _ in range(draw(st.integers(1, 4)))]
             sched = draw(st.lists(st.tuples(st.integers(0, 3), st.sampled_from([0, 0, 1, 7, 16, 40, 100000])).map(list),
                                   min_size=1, max_size=6))
             ops.append(['burst', msgs, sched])
